@@ -479,6 +479,8 @@ pub enum GOp {
     Footer(String),
     Assertion(String),
     Build,
+    /// later builds use this key (same builder object, another key)
+    UseKey(Box<KeyMat>),
 }
 
 /// one live batteries-included builder; `step` returns an outcome for Build and for a failing claim constructor
@@ -494,6 +496,8 @@ pub enum BOp {
     Footer(String),
     Assertion(String),
     Build,
+    /// later builds use this key (same builder object, another key)
+    UseKey(Box<KeyMat>),
 }
 
 /// validator behaviours (C16); the closure reads its behaviour from a thread-local table
@@ -1135,6 +1139,7 @@ macro_rules! impl_proto {
             }
             #[allow(unused_variables)]
             fn generic_run(key: &KeyMat, ops: &[GOp]) -> Vec<Out<String>> {
+                let mut cur_key: KeyMat = key.clone();
                 let mut outs = Vec::new();
                 let mut b = GenericBuilder::<$V, $Pu>::default();
                 for op in ops {
@@ -1161,9 +1166,12 @@ macro_rules! impl_proto {
                         GOp::Assertion(a) => {
                             ia_builder!($assert, b, Some(a.as_str()));
                         }
+                        GOp::UseKey(k2) => {
+                            cur_key = (**k2).clone();
+                        }
                         GOp::Build => {
                             let (o, _) = guard(
-                                || -> Result<String, HErr<GenericBuilderError>> { seal_keys!($kind, $V, key, |k| b.$seal(&k).map_err(HErr::Lib)) },
+                                || -> Result<String, HErr<GenericBuilderError>> { seal_keys!($kind, $V, (&cur_key), |k| b.$seal(&k).map_err(HErr::Lib)) },
                                 fmt_h(builder_err),
                             );
                             outs.push(o);
@@ -1174,6 +1182,7 @@ macro_rules! impl_proto {
             }
             #[allow(unused_variables)]
             fn batteries_run(key: &KeyMat, ops: &[BOp]) -> Vec<Out<String>> {
+                let mut cur_key: KeyMat = key.clone();
                 let mut outs = Vec::new();
                 let mut b = PasetoBuilder::<$V, $Pu>::default();
                 for op in ops {
@@ -1197,9 +1206,12 @@ macro_rules! impl_proto {
                         BOp::Assertion(a) => {
                             ia_builder!($assert, b, Some(a.as_str()));
                         }
+                        BOp::UseKey(k2) => {
+                            cur_key = (**k2).clone();
+                        }
                         BOp::Build => {
                             let (o, _) = guard(
-                                || -> Result<String, HErr<GenericBuilderError>> { seal_keys!($kind, $V, key, |k| b.build(&k).map_err(HErr::Lib)) },
+                                || -> Result<String, HErr<GenericBuilderError>> { seal_keys!($kind, $V, (&cur_key), |k| b.build(&k).map_err(HErr::Lib)) },
                                 fmt_h(builder_err),
                             );
                             outs.push(o);
@@ -1217,6 +1229,10 @@ macro_rules! impl_proto {
                     fn step(&mut self, op: &BOp) -> Option<Out<String>> {
                         // the builder keeps references into what it is given: the session owns a leaked copy
                         let op: &'static BOp = Box::leak(Box::new(op.clone()));
+                        if let BOp::UseKey(k2) = op {
+                            self.key = (**k2).clone();
+                            return None;
+                        }
                         let b = &mut self.b;
                         let key = &self.key;
                         match op {
@@ -1240,6 +1256,7 @@ macro_rules! impl_proto {
                                 ia_builder!($assert, b, Some(a.as_str()));
                                 None
                             }
+                            BOp::UseKey(_) => None,
                             BOp::Build => {
                                 let (o, _) = guard(
                                     || -> Result<String, HErr<GenericBuilderError>> { seal_keys!($kind, $V, key, |k| b.build(&k).map_err(HErr::Lib)) },
